@@ -72,8 +72,14 @@ def check_row(type_, v, bs, t):
     import mido
     Message = mido.Message
     attrs = attrs_of(type_, v)
+    # the ORDER in which the attributes are given rotates with the row (MidiWire.Encode is a function of
+    # the values only): documented order, reversed, time first / last, alphabetical
+    kw = dict(attrs, time=t)
+    names = list(kw)
+    k = (sum(bs) + len(bs)) % 5
+    order = [names, names[::-1], ['time'] + [n for n in names if n != 'time'], sorted(names), sorted(names, reverse=True)][k]
     try:
-        m = Message(type_, time=t, **attrs)
+        m = Message(type_, **{n: kw[n] for n in order})
     except Exception as e:
         return 'construct', 'constructor raised %r' % (e,)
     try:
